@@ -206,4 +206,79 @@ example :
     a.isKeyper 9 = false ∧ (a.deliverTx Order.canonical (.msg 9 "c0" 1 (.blockSeen 5))).2 = errResp := by
   decide
 
+theorem parseAddresses_length : ∀ (ks : List Raw) (l : List Addr), parseAddresses ks = some l → l.length = ks.length
+  | [], l, h => by simp [parseAddresses] at h; subst h; rfl
+  | r :: rest, l, h => by
+    unfold parseAddresses at h
+    cases hv : validateAddress r with
+    | none => simp [hv] at h
+    | some a =>
+      cases hp : parseAddresses rest with
+      | none => simp [hv, hp] at h
+      | some as =>
+        simp only [hv, hp, Option.some.injEq] at h
+        subst h
+        simp [parseAddresses_length rest as hp]
+
+/-- **A structurally invalid configuration is refused whoever sends it** — threshold zero or above the number
+    of keypers (any natural, so also 2^63 and above), no keypers, an address of the wrong length, a repeated
+    address: non-zero code, no events, state unchanged. -/
+theorem C10_malformed_config_refused (o : Order) (app : App.App) (sender : Addr) (act thr idx : Nat) (ks : List Raw)
+    (h : thr = 0 ∨ ks.length < thr ∨ ks = [] ∨ parseAddresses ks = none ∨
+      (∃ l, parseAddresses ks = some l ∧ uniqueAddrs l = false)) :
+    (deliverBatchConfig o app sender act thr idx ks).1 = app ∧
+      ((deliverBatchConfig o app sender act thr idx ks).2 = errResp ∨
+       (deliverBatchConfig o app sender act thr idx ks).2 = seenResp) := by
+  unfold deliverBatchConfig
+  cases hb : batchConfigFromMessage act thr idx ks with
+  | none => exact ⟨rfl, Or.inl rfl⟩
+  | some bc =>
+    simp only []
+    by_cases hsame : app.lastConfig = bc
+    · rw [if_pos hsame]; exact ⟨rfl, Or.inr rfl⟩
+    · rw [if_neg hsame]
+      have hinvalid : bc.valid = false := by
+        unfold batchConfigFromMessage at hb
+        cases hp : parseAddresses ks with
+        | none => simp [hp] at hb
+        | some l =>
+          simp only [hp] at hb
+          by_cases hu : uniqueAddrs l = true
+          · simp only [hu, if_true, Option.some.injEq] at hb
+            subst hb
+            have hlen := parseAddresses_length ks l hp
+            unfold BatchConfig.valid
+            simp only []
+            rcases h with h | h | h | h | ⟨l', hl', hdup⟩
+            · subst h; simp
+            · have : ¬ thr ≤ l.length := by omega
+              simp [this]
+            · subst h; simp at hlen; simp [hlen]
+            · rw [hp] at h; cases h
+            · rw [hp] at hl'; cases hl'; rw [hu] at hdup; cases hdup
+          · simp [hu] at hb
+      have : app.checkConfig bc = false := by unfold checkConfig; simp [hinvalid]
+      simp [this]
+
+/-- **A check-in with a validator key that is not 32 bytes or an encryption key that does not decode is refused
+    without a trace**, whoever sends it and whatever was stored before. -/
+theorem C10_malformed_checkin_refused (app : App.App) (sender : Addr) (vk : Raw) (encOk : Bool) (ek : Blob)
+    (h : vk.len ≠ 32 ∨ encOk = false) :
+    (deliverCheckIn app sender vk encOk ek).1 = app ∧
+      ((deliverCheckIn app sender vk encOk ek).2 = errResp ∨ (deliverCheckIn app sender vk encOk ek).2 = seenResp) := by
+  unfold deliverCheckIn
+  split
+  · exact ⟨rfl, Or.inr rfl⟩
+  · split
+    · exact ⟨rfl, Or.inl rfl⟩
+    · split
+      · exact ⟨rfl, Or.inl rfl⟩
+      · rename_i hvk
+        split
+        · exact ⟨rfl, Or.inl rfl⟩
+        · rename_i henc
+          rcases h with h | h
+          · exact absurd h hvk
+          · rw [h] at henc; simp at henc
+
 end Shutter.Properties.C10
